@@ -4,6 +4,7 @@ import (
 	"fmt"
 	"go/token"
 	"go/types"
+	"sort"
 
 	"golang.org/x/tools/go/ssa"
 
@@ -87,17 +88,31 @@ func (c *Ctx) checkDeleteList() {
 	delID := c.E().topicField("delID")
 	normalize := c.method("server/store/types", "RangeSorter", "Normalize")
 	r.Floor("C04.2-delete-exact", 6)
-	for _, fn := range c.funcsCalling(dl, "server") {
-		if !isPtrToNamedRecv(fn, "Topic") {
+	for _, sfn := range c.funcsCalling(dl, "server") {
+		if !isPtrToNamedRecv(sfn, "Topic") {
 			continue
 		}
-		r.Func(fk(fn))
-		for _, s := range core.CallsTo(fn, dl) {
+		r.Func(fk(sfn))
+		// the delete handler: the function that calls the store, or - when the handler was split into
+		// phases (authorise / apply / notify) - the function the phases belong to: the nearest one up
+		// the chain of sole callers whose region contains the permission test
+		isDelTest := func(in ssa.Instruction) bool {
+			call, ok := in.(*ssa.Call)
+			return ok && core.CalleeOf(&call.Call) == isDeleter
+		}
+		fn := c.climbUntil(sfn, func(root *ssa.Function) bool { return c.regionHas(root, isDelTest) })
+		var regionFns []*ssa.Function
+		for f := range c.regionOf(fn) {
+			regionFns = append(regionFns, f)
+		}
+		sort.Slice(regionFns, func(i, j int) bool { return fk(regionFns[i]) < fk(regionFns[j]) })
+		for _, s := range core.CallsTo(sfn, dl) {
 			sink := s.(ssa.Instruction)
+			isSink := func(in ssa.Instruction) bool { return in == sink }
 			base := fk(fn) + ": Messages.DeleteList"
 			gD := core.BoolGuard("IsDeleter(want&given)", core.IsCallTo(isDeleter, c.isEffMode()), true)
 			gR := core.BoolGuard("IsReader(want&given)", core.IsCallTo(isReader, c.isEffMode()), true)
-			ok, cnt := core.GuardedBy(fn, sink, gD, gR)
+			ok, cnt := core.GuardedBy(sfn, sink, gD, gR)
 			r.Check(ok && cnt[0] > 0 && cnt[1] > 0, "C04.2-delete-exact", base+" / requester has D or R", c.pos(s), "", "messages can be deleted by a user with neither delete nor read permission")
 			// channel addressing refused
 			var asChan *ssa.Parameter
@@ -107,7 +122,7 @@ func (c *Ctx) checkDeleteList() {
 				}
 			}
 			if asChan != nil {
-				ok, cnt := core.GuardedBy(fn, sink, core.BoolGuard("!asChan", func(v ssa.Value) bool { return v == ssa.Value(asChan) }, false))
+				ok, cnt := core.GuardedBy(sfn, sink, core.BoolGuard("!asChan", func(v ssa.Value) bool { return core.Strip(v) == ssa.Value(asChan) }, false))
 				r.Check(ok && cnt[0] > 0, "C04.2-delete-exact", base+" / not for channel readers", c.pos(s), "", "a channel reader can delete messages")
 			}
 			// downgrade: from the !IsDeleter edge every path to the sink passes `Hard = false`
@@ -123,50 +138,60 @@ func (c *Ctx) checkDeleteList() {
 				k, ok := st.Val.(*ssa.Const)
 				return ok && k.Value != nil && k.Value.String() == "false"
 			}
-			fe := core.FailEdges(fn, gD)
-			miss, _ := core.PathFromEdgeAvoiding(fn, fe, func(in ssa.Instruction) bool { return in == sink }, isDowngrade, nil)
-			r.Check(!miss && len(fe) > 0, "C04.2-delete-exact", base+" / without D the request is downgraded to soft", c.pos(s), "", "a requester without delete permission can reach the store with the hard flag still set")
-			// the hard/soft decision is read after the downgrade: every load of Hard that feeds a branch
-			// lies after the downgrade store on every path from it
-			var hardLoads []ssa.Instruction
-			core.AllInstrs(fn, func(in ssa.Instruction) {
-				u, ok := in.(*ssa.UnOp)
-				if !ok || u.Op != token.MUL {
-					return
-				}
-				if f, _ := core.FieldOfAddr(u.X); f == hardF {
-					hardLoads = append(hardLoads, in)
+			miss, nFail := false, 0
+			c.withRegionUp(fn, func() {
+				for _, f := range regionFns {
+					core.NoLift = true
+					fe := core.FailEdges(f, gD)
+					core.NoLift = false
+					if len(fe) == 0 {
+						continue
+					}
+					nFail += len(fe)
+					if m, _ := core.PathFromEdgeAvoidingX(f, fe, isSink, isDowngrade, nil); m {
+						miss = true
+					}
 				}
 			})
-			var downgrades []ssa.Instruction
-			core.AllInstrs(fn, func(in ssa.Instruction) {
+			r.Check(!miss && nFail > 0, "C04.2-delete-exact", base+" / without D the request is downgraded to soft", c.pos(s), "", "a requester without delete permission can reach the store with the hard flag still set")
+			// the hard/soft decision is read after the downgrade: every load of Hard that feeds a branch
+			// lies after the downgrade store on every path from it
+			var hardLoads, downgrades []ssa.Instruction
+			c.regionInstrs(fn, func(_ *ssa.Function, in ssa.Instruction) {
+				if u, ok := in.(*ssa.UnOp); ok && u.Op == token.MUL {
+					if f, _ := core.FieldOfAddr(u.X); f == hardF {
+						hardLoads = append(hardLoads, in)
+					}
+				}
 				if isDowngrade(in) {
 					downgrades = append(downgrades, in)
 				}
 			})
 			stale := false
 			var staleAt ssa.Instruction
-			for _, ld := range hardLoads {
-				// a load of Hard executed before a downgrade that can still follow it is stale when its
-				// value survives to the sink: i.e. there is a path load -> downgrade -> sink without a re-load
-				for _, dg := range downgrades {
-					if f1, _ := core.PathAvoiding(fn, ld, func(in ssa.Instruction) bool { return in == dg }, nil, nil); !f1 {
-						continue
-					}
-					isReload := func(in ssa.Instruction) bool {
-						for _, l2 := range hardLoads {
-							if in == l2 {
-								return true
-							}
+			c.withRegionUp(fn, func() {
+				for _, ld := range hardLoads {
+					// a load of Hard executed before a downgrade that can still follow it is stale when its
+					// value survives to the sink: i.e. there is a path load -> downgrade -> sink without a re-load
+					for _, dg := range downgrades {
+						if f1, _ := core.PathAvoidingX(ld.Parent(), ld, func(in ssa.Instruction) bool { return in == dg }, nil, nil); !f1 {
+							continue
 						}
-						return false
-					}
-					if f2, _ := core.PathAvoiding(fn, dg, func(in ssa.Instruction) bool { return in == sink }, isReload, nil); f2 {
-						stale = true
-						staleAt = ld
+						isReload := func(in ssa.Instruction) bool {
+							for _, l2 := range hardLoads {
+								if in == l2 {
+									return true
+								}
+							}
+							return false
+						}
+						if f2, _ := core.PathAvoidingX(dg.Parent(), dg, isSink, isReload, nil); f2 {
+							stale = true
+							staleAt = ld
+						}
 					}
 				}
-			}
+			})
 			r.Check(!stale && len(hardLoads) > 0, "C04.2-delete-exact", base+" / hard-or-soft is decided after the permission downgrade", c.pos(s), "",
 				"the `for everyone` decision is read"+posOf(c, staleAt)+" before the permission gate resets Hard: a requester without D erases the messages for everybody")
 			// forUser argument: phi(requester, ZeroUid)
@@ -187,10 +212,12 @@ func (c *Ctx) checkDeleteList() {
 			}, true)
 			r.Check(okFor, "C04.2-delete-exact", base+" / deleted for the requester or for everyone", c.pos(s), "", "messages are deleted on behalf of a user other than the requester")
 			// delID advanced only after success
-			for _, st := range core.StoresToField(fn, delID) {
-				ok, _ := core.GuardedBy(fn, st, successGuard(s))
-				okInc := core.IsBinOp(token.ADD, core.IsFieldLoad(delID), core.IsConstInt(1), true)(st.Val)
-				r.Check(ok && okInc, "C04.2b-delid-after-success", fk(fn)+": Topic.delID++ only after DeleteList succeeded", c.pos(st), "", "the delete counter is advanced before / without a successful DeleteList: a failed request changes what clients see and leaves a gap")
+			for _, f := range regionFns {
+				for _, st := range core.StoresToField(f, delID) {
+					ok, _ := core.GuardedBy(f, st, successGuard(s))
+					okInc := core.IsBinOp(token.ADD, core.IsFieldLoad(delID), core.IsConstInt(1), true)(st.Val)
+					r.Check(ok && okInc, "C04.2b-delid-after-success", fk(fn)+": Topic.delID++ only after DeleteList succeeded", c.pos(st), "", "the delete counter is advanced before / without a successful DeleteList: a failed request changes what clients see and leaves a gap")
+				}
 			}
 			// ranges: Normalize after sort on every non-error path
 			var norm, srt, normOuter ssa.Instruction
@@ -205,47 +232,17 @@ func (c *Ctx) checkDeleteList() {
 					}
 				}
 			})
+			_ = normOuter
 			if norm == nil || srt == nil || normFn != srtFn {
 				r.Fail("C04.2c-ranges-normalised", base+" / ranges sorted and normalised", c.pos(s), "the delete handler no longer sorts and normalises the requested ranges")
 			} else {
-				reached := false
-				overflow := false
-				if normFn == fn {
-					res := core.NilWalk(fn, nil, nil, func(in ssa.Instruction) bool { return in == norm }, func(in ssa.Instruction, f core.NilFacts) {
-						if in == sink {
-							reached = true
-						}
-					})
-					overflow = res.Overflow
-				} else {
-					// the conversion was extracted: inside the helper every return with a possibly-nil
-					// error passes Normalize; in the handler the store call is behind the helper's success
-					ei := errIndex(normFn.Signature)
-					res := core.NilWalk(normFn, nil, nil, func(in ssa.Instruction) bool { return in == norm }, func(in ssa.Instruction, f core.NilFacts) {
-						ret, ok := in.(*ssa.Return)
-						if !ok {
-							return
-						}
-						if ei < 0 {
-							reached = true
-							return
-						}
-						if k, n := core.Nilness(ret.Results[ei], f); !(k && !n) {
-							reached = true
-						}
-					})
-					overflow = res.Overflow
-					oc, isCall := normOuter.(ssa.CallInstruction)
-					if !isCall || ei < 0 {
-						reached = true
-					} else if ok, _ := core.GuardedBy(fn, sink, successGuard(oc)); !ok {
-						reached = true
-					}
-				}
+				// from the handler's entry no nil-feasible path reaches the store call without passing
+				// Normalize (entering helpers: the conversion or the store call may sit in one)
+				reached, _, overflow := core.PathAvoidingDeep(fn, nil, nil, isSink, func(in ssa.Instruction) bool { return in == norm }, nil)
 				r.Check(!reached && !overflow, "C04.2c-ranges-normalised", base+" / every non-error path normalises the ranges", c.pos(s), "", "the store can receive ranges that were not normalised (overlapping/unsorted ranges delete or log ids outside the union)")
 				unsorted, _ := core.PathAvoiding(normFn, nil, func(in ssa.Instruction) bool { return in == norm }, func(in ssa.Instruction) bool { return in == srt }, nil)
 				r.Check(!unsorted, "C04.2c-ranges-normalised", base+" / sorted before normalising", c.pos(norm), "", "Normalize is applied to an unsorted list (it assumes sorted input)")
-				okArg := core.Derives(args[4], func(v ssa.Value) bool { return v == norm.(ssa.Value) }, false)
+				okArg := core.Derives(c.rootValue(args[4]), func(v ssa.Value) bool { return v == norm.(ssa.Value) }, false) || core.Derives(args[4], func(v ssa.Value) bool { return v == norm.(ssa.Value) }, false)
 				r.Check(okArg, "C04.2c-ranges-normalised", base+" / the normalised list is what the store gets", c.pos(s), "", "the ranges handed to the store are not the normalised ones")
 			}
 		}
